@@ -389,21 +389,29 @@ def print_rule(ctx, r):
     SUM = PR + "::summary::SummarySink"
     f = facts.fn("<%s as %s>::finish" % (SUM, SINK))
     eb = ExprBuilder(f)
-    c1 = cond_switches(f, lambda e: is_call(e, "core::option::Option::is_some") and mentions_field(e, SUM, "binary_byte_offset"), eb)
-    c2 = cond_switches(f, lambda e: is_call(e, "core::option::Option::is_some") and
-                       mentions_call(e, "grep_searcher::searcher::BinaryDetection::quit_byte"), eb)
-    if not c1 or not c2:
+    # value table over (binary offset seen, quit mode): seen ∧ quit ⇒ the count is squashed to 0 and nothing is written;
+    # otherwise the writes stay reachable
+    writes_all = [c for c in f.calls() if c.path.startswith(SUM + "::write")]
+    if not writes_all or not f.calls_to("grep_searcher::searcher::BinaryDetection::quit_byte"):
         r.bad("summary|finish", "SummarySink::finish: binary guard missing", fn=f, construct="summary-binary")
     else:
-        s = Sccp(f).run([(c2[0][1][1], {})])
-        writes = [c for c in f.calls() if c.bb in s.exec_blocks and c.path.startswith(SUM + "::write")]
-        zero = [st for bb, j, st in f.stmts() if bb in s.exec_blocks and st["k"] == "assign" and
-                (SUM, "match_count") in fields_of_place(st["place"]) and (op_const(st["rv"].get("a", {})) or {}).get("val") == 0]
-        # the guard must come before any write on every path
-        allw = [c.bb for c in f.calls() if c.path.startswith(SUM + "::write")]
-        esc = C.all_paths_pass(f, [0], {c1[0][0]}, allw)
-        if writes or not zero or esc:
-            r.bad("summary|finish", "SummarySink::finish can write a count/path for a file dropped by binary detection", fn=f,
+        bad_sq, bad_keep = [], []
+        for row, sx in table(facts, f, fields={(SUM, "binary_byte_offset"): [V("None", None), V("Some", I(5))]},
+                             calls={"BinaryDetection::quit_byte": [V("None", None), V("Some", I(0))]}):
+            seen = row[("field", (SUM, "binary_byte_offset"))][1] == "Some"
+            quit_ = row[("call", "BinaryDetection::quit_byte")][1] == "Some"
+            wrote = [c for c in writes_all if c.bb in sx.exec_blocks]
+            zero = [st for bb, j, st in f.stmts() if bb in sx.exec_blocks and st["k"] == "assign" and
+                    (SUM, "match_count") in fields_of_place(st["place"]) and (op_const(st["rv"].get("a", {})) or {}).get("val") == 0]
+            if seen and quit_ and (wrote or not zero):
+                bad_sq.append("writes %d, squashed %s" % (len(wrote), bool(zero)))
+            if not (seen and quit_) and not wrote:
+                bad_keep.append("seen=%s quit=%s" % (seen, quit_))
+        if bad_sq:
+            r.bad("summary|finish", "SummarySink::finish can write a count/path for a file dropped by binary detection (%s)" % bad_sq[0], fn=f,
+                  construct="summary-binary")
+        elif bad_keep:
+            r.bad("summary|finish", "SummarySink::finish withholds its output although the file was not dropped (%s)" % bad_keep[0], fn=f,
                   construct="summary-binary")
         else:
             r.ok("summary|finish", "binary ∧ quit ⇒ match_count = 0, return before any write", fn=f)
